@@ -56,6 +56,13 @@ std::vector<Item> random_options(Rng &r, int mode, int density) {
 	if (maybe(15)) pool.push_back({r.coin(1, 2) ? "-Wa,--noexecstack" : r.coin(1, 4) ? "-Wa," : "-Wa,-q,--fatal-warnings,-a"});
 	if (maybe(15)) pool.push_back({r.coin(1, 2) ? "-Wl,--gc-sections" : r.coin(1, 4) ? "-Wl,-z,,--as-needed" : "-Wl,-z,--as-needed,-O1"});
 	if (maybe(5)) pool.push_back({"-Wl,--second-list,-x"});
+	if (maybe(4)) {
+		// one list with more elements than any fixed-size scratch array is likely to hold
+		std::string l = r.coin(1, 2) ? "-Wl" : r.coin(1, 2) ? "-Wa" : "-Wp";
+		int ne = 30 + (int)r.below(40);
+		for (int i = 0; i < ne; i++) l += ",-e" + std::to_string(i);
+		pool.push_back({l});
+	}
 	if (maybe(20)) pool.push_back(opt_val(r, "-L", paths[r.below(4)]));
 	if (maybe(10)) pool.push_back({"-s"});
 	if (maybe(10)) pool.push_back({"-static"});
@@ -82,10 +89,10 @@ std::vector<Item> random_options(Rng &r, int mode, int density) {
 	}
 	// option values that look like options themselves
 	if (maybe(8)) {
-		static const char *odd[] = {"-E", "-c", "-o", "-", "--", "-x", "-lfoo", "-Wl,x", ""};
-		static const char *opts[] = {"-D", "-U", "-I", "-L"};
-		const char *o = opts[r.below(4)];
-		pool.push_back({o, odd[r.below(9)]});  // detached only: attached "-D-E" is simply the value "-E"
+		static const char *odd[] = {"-E", "-c", "-S", "-emit-qbe", "-M", "-MM", "-o", "-", "--", "-x", "-lfoo", "-Wl,x", "-nostdlib", "-v", ""};
+		static const char *opts[] = {"-D", "-U", "-I", "-L", "-include", "-isystem", "-idirafter", "-iquote", "-MF", "-MT"};
+		const char *o = opts[r.below(10)];
+		pool.push_back({o, odd[r.below(15)]});  // detached only: attached "-D-E" is simply the value "-E"
 	}
 	// the same option more than once: every occurrence is passed on, in order
 	if (!pool.empty() && maybe(25)) {
@@ -125,6 +132,7 @@ Scenario gen_c17(uint64_t seed) {
 		sc.argv.push_back(names[r.below(8)]);
 	}
 	sc.readlink_fail = r.coin(1, 6);
+	sc.sigchld_ignored = r.coin(1, 16);
 	sc.pipe_cap = 1 + r.below(4);
 	sc.pid_base = 50 + r.below(5000);
 	sc.stdin_units = r.below(5);
@@ -172,6 +180,7 @@ Scenario gen_c17(uint64_t seed) {
 		if (r.coin(1, 6)) { inseq.push_back(opt_val(r, "-l", r.coin(1, 2) ? "m" : "foo")); nentries++; }
 	}
 
+	if (mode == LINK && r.coin(1, 25)) { inseq.push_back({""}); nentries++; }  // an operand that is the empty string is still an operand
 	std::vector<Item> opts = random_options(r, mode, 3 + r.below(8));
 	if (mode != LINK) opts.push_back({mode_flag(mode, r)});
 	bool want_o = r.coin(1, 2);
@@ -200,7 +209,7 @@ Scenario gen_c17(uint64_t seed) {
 			if (r.coin(1, 2)) opts.push_back({"-D", "DETACHED"});
 			break;
 		}
-		case 7: { static const char *bad[] = {"-cfoo", "-Ex", "-Sx", "-sx", "-vv"}; opts.push_back({bad[r.below(5)]}); break; }
+		case 7: { static const char *bad[] = {"-cfoo", "-Ex", "-Sx", "-sx", "-vv", "-shared", "-static-pie", "-save-temps", "-sysroot", "-c99", "-Eh", "-verbose", "-Shared"}; opts.push_back({bad[r.below(13)]}); break; }
 		case 8: opts.push_back({r.coin(1, 2) ? "-MFfile" : "-MQ"}); break;
 		case 9: opts.push_back({"-includefoo.h"}); break;
 		case 10: opts.push_back({r.coin(1, 2) ? "-nostdfoo" : "-pthreads"}); break;
@@ -270,6 +279,8 @@ Scenario gen_c18(uint64_t seed, uint64_t index, bool relaxed) {
 	sc.cell = c18_cell_name(index);
 	sc.argv.push_back("cproc");
 	sc.readlink_fail = r.coin(1, 10);
+	sc.stdin_closed = r.coin(1, 12);
+	sc.sigchld_ignored = r.coin(1, 12);
 	sc.pipe_cap = 1 + r.below(4);
 	sc.pid_base = 50 + r.below(5000);
 	sc.stdin_units = r.below(4);
